@@ -313,14 +313,20 @@ def cmd_check(argv):
     # ---- O4: cross-process repeatability under another PYTHONHASHSEED
     violations = []     # (violation dict, plan or None)
     pair_checked = 0
-    for i, rb in runsB.items():
+    o4_confirmed = 0
+    for i, rb in sorted(runsB.items()):
         ra = runsA.get(i)
         if ra is None:
             continue
         pair_checked += 1
         if ra["sched"] != rb["sched"]:
             harness.append(f"schedule digest of run {i} differs between hash seeds (harness nondeterminism)")
+        elif ra["resd"] != rb["resd"] and o4_confirmed >= 3:
+            pass        # three confirmed occurrences are reported; the remaining digest mismatches are not re-run
+        elif ra["resd"] != rb["resd"] and confirm_hashseed_difference(prop, i, vseed) is None:
+            pass        # digests differ only by rounding at the 10th digit: tolerantly equal, not a violation
         elif ra["resd"] != rb["resd"]:
+            o4_confirmed += 1
             violations.append(({"property": prop, "oracle": "O4", "step": "-", "op": "run", "sub": "", "kind": "hashseed-dependent-result",
                                 "detail": f"run {i} (seed {ra['seed']}) gives different results under PYTHONHASHSEED=0 and {SECOND_HASHSEED}"},
                                None, ra["seed"]))
@@ -391,6 +397,25 @@ def cmd_check(argv):
     if exit_code == 0:
         shutil.rmtree(work, ignore_errors=True)
     return exit_code
+
+
+def confirm_hashseed_difference(prop, i, vseed):
+    """digests are exact; before a hash-seed dependence is reported, the run is repeated under both hash seeds in
+    fresh interpreters and the canonical results are compared with the numeric tolerance of O1.
+    Returns a description of the first difference, or None when the results agree tolerantly."""
+    from . import canon
+    outs = []
+    for hs in ("0", SECOND_HASHSEED):
+        env = dict(os.environ, PYTHONHASHSEED=hs, VERIF_SEED=str(vseed))
+        try:
+            p = subprocess.run([PY, RUNPY, "runjson", prop, str(i)], env=env, capture_output=True, text=True, timeout=600)
+        except subprocess.TimeoutExpired:
+            return "confirmation run timed out"
+        line = next((l for l in p.stdout.splitlines() if l.startswith("RUNJSON ")), None)
+        if line is None:
+            return "confirmation run produced no result"
+        outs.append(canon.dec(json.loads(line[len("RUNJSON "):])))
+    return canon.diff(outs[0], outs[1])
 
 
 def minimise_and_write(prop, plan, v, seed, work):
